@@ -369,3 +369,41 @@ BOUNDED = [('bounded/api-histories', 'real Context == frame-list model (lookups,
            ('bounded/newcommand-scope', '\\newcommand / \\renewcommand inside a group are local to it', '2 programs', bounded_newcommand_scope),
            ('bounded/let-char-rebind', 'a control sequence \\let to a character can be rebound by a later \\def / \\let', '3 programs', bounded_let_char)]
 CLASSES = {'let-char-rebind': lambda w: isinstance(w, dict) and w.get('kind') == 'let-char-rebind', 'global-prefix': is_global_prefix, 'newcommand-scope': lambda w: isinstance(w, dict) and 'newcommand' in str(w.get('text', ''))}
+
+
+# ----------------------------------------------------------------------------------------------- Context.isMathMode (executable contract)
+class _ModeObj:
+    def __init__(self, mode):
+        self.mathMode = mode
+
+
+def check_mathmode(w):
+    """frames: one entry per pushed frame: 'n' no object, 'u' object with mathMode None, 't' / 'f' object declaring math / text mode"""
+    from plasTeX.Context import Context
+    ctx = Context(load=False)
+    for f in w['frames']:
+        ctx.push()
+        ctx.contexts[-1].obj = None if f == 'n' else _ModeObj({'u': None, 't': True, 'f': False}[f])
+    want = False
+    for f in reversed(w['frames']):
+        if f in 'tf':
+            want = (f == 't')
+            break
+    got = ctx.isMathMode
+    if got is not want:
+        return False, 'frames %r (innermost last): isMathMode = %r, the innermost declaring frame says %r' % (w['frames'], got, want)
+    return True, ''
+
+
+def small_mathmode():
+    for n in range(0, 6):
+        for fr in itertools.product('nutf', repeat=n):
+            yield dict(frames=''.join(fr), text=''.join(fr))
+
+
+try:
+    CONTRACTS
+except NameError:
+    CONTRACTS = {}
+CONTRACTS['Context.isMathMode'] = dict(check=check_mathmode, small=small_mathmode,
+                                       gen=lambda rng: dict(frames=''.join(rng.choice('nutf') for _ in range(rng.randrange(0, 12)))))
